@@ -28,6 +28,10 @@ impl<'a> Args<'a> {
 	fn bool(&mut self) -> bool {
 		self.u64() != 0
 	}
+	fn htlcs(&mut self) -> Vec<(bool, u64)> {
+		let n = self.usize();
+		(0..n).map(|_| (self.bool(), self.u64())).collect()
+	}
 	fn opt_u32(&mut self) -> Option<u32> {
 		let d = self.u64();
 		let v = self.u32();
@@ -92,6 +96,68 @@ fn dispatch(name: &str, a: &mut Args) -> String {
 				_ => EffectiveCapacity::Unknown,
 			};
 			format!("{}", lightning::routing::router::verif_hooks::max_htlc_from_capacity(cap, pow))
+		},
+		"mpp_check_onchain_timeout" => {
+			let (exp, h) = (a.u32(), a.u32());
+			format!("{}", lightning::ln::channelmanager::verif_hooks::mpp_check_onchain_timeout(exp, h) as u8)
+		},
+		"commit_tx_fee_sat" => {
+			let (f, n, tag) = (a.u32(), a.usize(), a.u8());
+			format!("{}", lightning::ln::chan_utils::verif_hooks::commit_tx_fee_sat(f, n, tag))
+		},
+		"second_stage_tx_fees_sat" => {
+			let (tag, f) = (a.u8(), a.u32());
+			let (s, t) = lightning::ln::chan_utils::verif_hooks::second_stage_tx_fees_sat(tag, f);
+			format!("{} {}", s, t)
+		},
+		"htlc_tx_fees_sat" => {
+			let (f, acc, off, tag) = (a.u32(), a.usize(), a.usize(), a.u8());
+			format!("{}", lightning::ln::chan_utils::verif_hooks::htlc_tx_fees_sat(f, acc, off, tag))
+		},
+		"channel_type_supports" => {
+			let (x, y) = lightning::ln::chan_utils::verif_hooks::supports(a.u8());
+			format!("{} {}", x as u8, y as u8)
+		},
+		"is_dust" => {
+			let (outb, amt, local, f, dust, tag) = (a.bool(), a.u64(), a.bool(), a.u32(), a.u64(), a.u8());
+			format!("{}", lightning::sign::tx_builder::verif_hooks::is_dust(outb, amt, local, f, dust, tag) as u8)
+		},
+		"get_dust_buffer_feerate" => {
+			format!("{}", lightning::sign::tx_builder::verif_hooks::get_dust_buffer_feerate(a.u32()))
+		},
+		"get_next_commitment_stats" => {
+			let (local, funder, value, to_holder) = (a.bool(), a.bool(), a.u64(), a.u64());
+			let htlcs = a.htlcs();
+			let (addl, f, spike, lim, dust, tag) = (a.usize(), a.u32(), a.bool(), a.opt_u32(), a.u64(), a.u8());
+			match lightning::sign::tx_builder::verif_hooks::get_next_commitment_stats(
+				local, funder, value, to_holder, &htlcs, addl, f, spike, lim, dust, tag,
+			) {
+				Ok((h, c, d)) => format!("0 {} {} {}", h, c, d),
+				Err(()) => "1 0 0 0".to_string(),
+			}
+		},
+		"get_available_balances" => {
+			let (funder, value, to_holder) = (a.bool(), a.u64(), a.u64());
+			let htlcs = a.htlcs();
+			let (f, lim, maxdust) = (a.u32(), a.opt_u32(), a.u64());
+			let mut c = [0u64; 7];
+			for i in 0..7 {
+				c[i] = a.u64();
+			}
+			let tag = a.u8();
+			let r = lightning::sign::tx_builder::verif_hooks::get_available_balances(
+				funder, value, to_holder, &htlcs, f, lim, maxdust, c, tag,
+			);
+			r.iter().map(|v| v.to_string()).collect::<Vec<_>>().join(" ")
+		},
+		"build_commitment" => {
+			let (local, funder, value, to_self) = (a.bool(), a.bool(), a.u64(), a.u64());
+			let htlcs = a.htlcs();
+			let (f, dust, tag) = (a.u32(), a.u64(), a.u8());
+			let r = lightning::sign::tx_builder::verif_hooks::build_commitment_arith(
+				local, funder, value, to_self, &htlcs, f, dust, tag,
+			);
+			r.iter().map(|v| v.to_string()).collect::<Vec<_>>().join(" ")
 		},
 		_ => return format!("error unknown function {}", name),
 	}
